@@ -426,3 +426,36 @@ Proof.
       (* guard_F1 holds only without default rule *)
       exfalso. subst def. unfold guard_F1 in Hg. rewrite orb_true_r in Hg. discriminate.
 Qed.
+
+(** ** Rule sets are accepted or rejected as a whole *)
+Theorem ruleset_all_or_nothing fixed proxy def rs effs :
+  load_rules fixed proxy def rs = Ok effs <->
+  Forall2 (fun r e => create_rule fixed proxy def r = Ok e) rs effs.
+Proof.
+  revert effs. induction rs as [|r rs IH]; intros effs; simpl.
+  - split.
+    + intro H; inversion H; constructor.
+    + intro H; inversion H; reflexivity.
+  - destruct (create_rule fixed proxy def r) as [e| |] eqn:Hr.
+    + destruct (load_rules fixed proxy def rs) as [es| |] eqn:Hrs.
+      * split.
+        -- intro H; inversion H; subst. constructor; [assumption | apply IH; reflexivity].
+        -- intro H. inversion H as [|? e' ? es' He Hes]; subst.
+           apply IH in Hes. inversion Hes; subst. congruence.
+      * split; [discriminate|]. intro H. inversion H as [|? e' ? es' He Hes]; subst.
+        apply IH in Hes. discriminate.
+      * split; [discriminate|]. intro H. inversion H as [|? e' ? es' He Hes]; subst.
+        apply IH in Hes. discriminate.
+    + split; [discriminate|]. intro H. inversion H; subst. congruence.
+    + split; [discriminate|]. intro H. inversion H; subst. congruence.
+Qed.
+
+(** one malformed rule anywhere in the set rejects the set *)
+Corollary ruleset_one_bad_rejects fixed proxy def rs1 r rs2 :
+  (forall e, create_rule fixed proxy def r <> Ok e) ->
+  forall effs, load_rules fixed proxy def (rs1 ++ r :: rs2) <> Ok effs.
+Proof.
+  intros Hbad effs H. apply ruleset_all_or_nothing in H.
+  apply Forall2_app_inv_l in H as (l1 & l2 & _ & H2 & _).
+  inversion H2 as [|? e ? ? He _]; subst. exact (Hbad e He).
+Qed.
